@@ -488,6 +488,19 @@ null_function			(vbi3_bit_slicer *	bs,
 	return FALSE;
 }
 
+/* Number of bytes the payload loops store in the output buffer.
+   bs->payload counts octets when the octet routines are used
+   (bs->endian 0 or 1) and bits when the bit routines are used
+   (bs->endian 2 or 3), see vbi3_bit_slicer_set_params(). */
+static unsigned int
+payload_bytes			(const vbi3_bit_slicer *	bs)
+{
+	if (bs->endian >= 2)
+		return (bs->payload + 7) >> 3;
+	else
+		return bs->payload;
+}
+
 /**
  * @param bs Pointer to vbi3_bit_slicer object allocated with
  *   vbi3_bit_slicer_new().
@@ -546,10 +559,10 @@ vbi3_bit_slicer_slice_with_points
 	points_start = points;
 	*n_points = 0;
 
-	if (bs->payload > buffer_size * 8) {
+	if (payload_bytes (bs) > buffer_size) {
 		warning (&bs->log,
-			 "buffer_size %u < %u bits of payload.",
-			 buffer_size * 8, bs->payload);
+			 "buffer_size %u < %u bytes of payload.",
+			 buffer_size, payload_bytes (bs));
 		return FALSE;
 	}
 
@@ -614,10 +627,10 @@ vbi3_bit_slicer_slice		(vbi3_bit_slicer *	bs,
 	assert (NULL != buffer);
 	assert (NULL != raw);
 
-	if (bs->payload > buffer_size * 8) {
+	if (payload_bytes (bs) > buffer_size) {
 		warning (&bs->log,
-			 "buffer_size %u < %u bits of payload.",
-			 buffer_size * 8, bs->payload);
+			 "buffer_size %u < %u bytes of payload.",
+			 buffer_size, payload_bytes (bs));
 		return FALSE;
 	}
 
